@@ -551,6 +551,21 @@ Proof.
   - repeat (match goal with |- context [if ?b then _ else _] => destruct b end); reflexivity.
 Qed.
 
+(* a route's backendRef is looked up as "<route namespace>/<name>" with an empty default
+   namespace: it can only name a service of the route's namespace *)
+Lemma get_service_gw_agree B d w1 w2 r v :
+  agree_outside B w1 w2 -> r <> B -> contains_char slash r = false ->
+  get_service d w1 "" (r +++ "/" +++ v) = get_service d w2 "" (r +++ "/" +++ v).
+Proof.
+  intros (_ & Hsv & _) HB Hr. unfold get_service, build_resource_name.
+  destruct (split_key (r +++ "/" +++ v)) as [[ns n]|] eqn:E; [|reflexivity].
+  cbn [String.eqb]. destruct (split_key_some _ _ _ E) as (Hn & [[-> Hk]|[Hk Hns]]).
+  - exfalso. rewrite <- Hk in Hn. change (r +++ "/" +++ v) with (r +++ String slash v) in Hn.
+    rewrite contains_app in Hn. cbn [contains_char] in Hn. rewrite Ascii.eqb_refl, orb_true_r in Hn. discriminate.
+  - change (r +++ "/" +++ v) with (r +++ String slash v) in Hk.
+    destruct (app_sep_inj slash r v ns n Hr Hns Hk) as [<- <-]. rewrite (Hsv r v HB). reflexivity.
+Qed.
+
 Lemma resolve_site_inv d w u s :
   all_deny d -> wf_site s -> inv_u u -> inv_u (snd (resolve_site d w u s)).
 Proof.
